@@ -60,6 +60,25 @@ def gen(tier, rng):
             pos = rng.randrange(8, len(nb) * 8)
             nb[pos // 8] ^= 0x80 >> (pos % 8)
         cases.append("slice %s,%s raw:%s" % (cs, cp, hx(bytes(nb))))
+    # a context holding every one of the 256 PPS ids (stored in several orders, the last ones stored again), slices naming
+    # ids across the range: the returned PPS is the entry named by the id
+    for order in range(2 if tier == "quick" else 8):
+        s0 = g.gen_sps(rng, sps_id=0, small=True, force={"profile_idc": 66, "frame_mbs_only": True, "poc_type": 2})
+        ids = list(range(256))
+        if order % 2:
+            rng.shuffle(ids)
+        pps = {}
+        items = ["S" + hx(g.sps_nal(s0, rng))]
+        for i in ids + [ids[-1], ids[0]]:
+            pp = g.gen_pps(rng, s0, pps_id=i, force={"num_slice_groups_minus1": 0, "ext": False})
+            pp["pic_init_qs_minus26"] = (i % 40) - 20
+            pps[i] = pp
+            items.append("P" + hx(g.pps_nal(pp, rng)))
+        srcs = []
+        for i in [ids[-1], ids[0], 255, 0, 254, 128, rng.randrange(256)]:
+            hh = g.gen_slice(rng, s0, pps[i], nal_type=rng.choice([1, 5]), ref_idc=1, slice_type=rng.choice([3, 4, 8, 9, 2, 7]))
+            srcs.append("raw:" + hx(g.slice_nal(hh, rng)[0]))
+        cases.append("slices %s %s" % (",".join(items), " ".join(srcs)))
     # one Exp-Golomb element displaced by a multiple of 256 (a value that a narrowing cast maps back into range)
     from vlib import bitgen
     for i in range(2500 if tier == "quick" else 50000):
@@ -95,6 +114,8 @@ def ints(a, name):
 
 def extra_check(r):
     a = r["dev"]
+    if r["case"].startswith("slices "):
+        return None        # judged against the model (every single parse) by the runner
     if not a.startswith("ok:"):
         return None
     cmd = r["case"].split()[0]
